@@ -13,7 +13,7 @@ use soroban_sdk::{Address, BytesN};
 
 pub struct C08;
 
-const RETENTIONS: [u64; 10] = [0, 1, 2, 3, 5, 100, u64::MAX, u64::MAX - 1, u64::MAX - 3, 1 << 63];
+const RETENTIONS: [u64; 18] = [0, 1, 2, 3, 5, 100, u64::MAX, u64::MAX - 1, u64::MAX - 3, 1 << 63, 7, 8, 15, 16, 17, 31, 32, 64];
 
 #[derive(Clone, Debug, Serialize, Deserialize, PartialEq, Eq)]
 pub struct Step {
@@ -35,6 +35,9 @@ pub struct Case {
     pub retention: u8,
     pub initial: Vec<SetGen>,
     pub steps: Vec<Step>,
+    /// honest rotations by the newest set made right after construction (a limit may only be met after accumulation)
+    #[serde(default)]
+    pub warmup_rotations: u8,
 }
 
 fn step() -> impl Strategy<Value = Step> {
@@ -48,15 +51,15 @@ impl Property for C08 {
         "C08"
     }
     fn rule(&self) -> &'static str {
-        "proptest: retention in {0,1,2,3,5,100,2^63,u64::MAX-3,u64::MAX-1,u64::MAX}, 1-4 initial sets, history of <=9 (quick) / <=14 (thorough) rotation attempts (proving set = any installed set, bypass flag, operator authorisation), optionally with up to 99 days passing before a step (<= 300 in total), and with candidates that are already installed (must fail and must not age any set). After construction and after every step EVERY installed set is probed on both paths: validate_proof over a fresh data hash and approve_messages of a unique message (sets outside the window additionally with a batch of already approved messages). Oracle: honoured iff current_epoch - epoch(set) <= retention (validate_proof's flag true exactly for the newest set); a rotation attempt succeeds iff the proving set is the newest (no bypass) or within the window (bypass with operator authorisation). non-trivial = some probe lies exactly on the boundary (current - epoch in {retention, retention+1}); distinct by Debug hash"
+        "proptest: retention in {0,1,2,3,5,7,8,15,16,17,31,32,64,100,2^63,u64::MAX-3,u64::MAX-1,u64::MAX}, 1-4 initial sets, in one case in seven 1-69 honest warm-up rotations first (so that windows of 16, 32, 64 sets are actually filled and crossed), history of <=9 (quick) / <=14 (thorough) rotation attempts (proving set = any installed set, bypass flag, operator authorisation), optionally with up to 99 days passing before a step (<= 300 in total), and with candidates that are already installed (must fail and must not age any set). After construction and after every step EVERY installed set (in histories of more than 12 sets: the newest and oldest two and every set within two epochs of the configured window edge or of 8, 16, 32, 64) is probed on both paths: validate_proof over a fresh data hash and approve_messages of a unique message (sets outside the window additionally with a batch of already approved messages). Oracle: honoured iff current_epoch - epoch(set) <= retention (validate_proof's flag true exactly for the newest set); a rotation attempt succeeds iff the proving set is the newest (no bypass) or within the window (bypass with operator authorisation). non-trivial = some probe lies exactly on the boundary (current - epoch in {retention, retention+1}); distinct by Debug hash"
     }
     fn cases(&self, tier: Tier) -> u64 {
         tier.pick(3000, 40000)
     }
     fn strategy(&self, tier: Tier) -> BoxedStrategy<Case> {
         let n = tier.pick(9usize, 14usize);
-        (0u8..10, proptest::collection::vec(setgen(3), 1..5), proptest::collection::vec(step(), 0..=n))
-            .prop_map(|(retention, initial, steps)| Case { retention, initial, steps })
+        (prop_oneof![2 => 0u8..10, 1 => 10u8..18], proptest::collection::vec(setgen(3), 1..5), proptest::collection::vec(step(), 0..=n), prop_oneof![6 => Just(0u8), 1 => 1u8..70])
+            .prop_map(|(retention, initial, steps, warmup_rotations)| Case { retention, initial, steps, warmup_rotations })
             .boxed()
     }
 
@@ -76,10 +79,18 @@ impl Property for C08 {
         let boundary = std::cell::Cell::new(false);
 
         let mut probe_all = |installed: &Vec<BuiltSet>, model: &SignerModel, at: &str, cx: &mut Cx| -> Result<(), String> {
+            let many = installed.len() > 12;
             for (i, s) in installed.iter().enumerate() {
                 let h = s.hash();
                 let e = model.by_hash[&h];
                 let age = model.epoch - e;
+                // long histories: probe the sets around every plausible window edge, the oldest and the newest ones
+                if many {
+                    let near = |x: u64| age + 2 >= x && age <= x.saturating_add(2);
+                    if !(age <= 1 || i <= 1 || near(retention) || near(8) || near(16) || near(32) || near(64)) {
+                        continue;
+                    }
+                }
                 let live = age <= retention;
                 if age == retention || Some(age) == retention.checked_add(1) {
                     boundary.set(true);
@@ -136,6 +147,20 @@ impl Property for C08 {
         };
 
         probe_all(&installed, &model, "after construction", cx)?;
+        if case.warmup_rotations > 0 {
+            for j in 0..case.warmup_rotations as u64 {
+                let newest = installed.last().unwrap().clone();
+                let cand = simple_set(3000 + j as u16);
+                let nh = newest.hash();
+                let proof = newest.proof(&env, &digest(&gw.domain, &nh, &cand.rotation_data_hash()), newest.full_mask());
+                let r = gw.client.mock_auths(&[]).try_rotate_signers(&cand.to_soroban(&env), &proof, &false);
+                ensure_p!(matches!(r, Ok(Ok(()))), "warm-up rotation {} by the newest set refused: {:?}", j, r);
+                model.install(cand.hash());
+                installed.push(cand);
+            }
+            cx.label(if case.warmup_rotations >= 16 { "history_of_16_or_more_rotations" } else { "history_with_warmup_rotations" });
+            probe_all(&installed, &model, "after the warm-up rotations", cx)?;
+        }
         for (k, st) in case.steps.iter().enumerate() {
             if st.days_before > 0 && days_passed + st.days_before as u32 <= 300 {
                 days_passed += st.days_before as u32;
